@@ -295,6 +295,9 @@ func (r *ChildResult) absorb(c *Case) {
 	r.Cases++
 	if c.discard != "" {
 		r.Discards[c.discard]++
+		for k, v := range c.counters {
+			r.Counters[k] += v
+		}
 		return
 	}
 	if c.evals == 0 {
